@@ -151,6 +151,9 @@ func checkC21(r *sim.Run, b *chainBlock, prior, post *types.State) {
 		bangX[w.PackageSpec.Hash] = true
 	}
 	star := append(append([]types.WorkReport(nil), bang...), refPriority(refEdit(composed, bangX))...)
+	if len(star) > types.EpochLength+1 {
+		r.Count("probe:more_than_an_epoch_of_reports_accumulatable_in_one_block", 1)
+	}
 	// every selected report fits the block's gas in the generated histories (checked, not assumed)
 	var gas uint64
 	for _, w := range star {
